@@ -29,7 +29,12 @@ def replay(path: str) -> int:
     if kind == "aggregator-history":
         from .checks_agg import _run_history, validate_histories
         res = _run_history((case["scn"], case["sessions"], str(common.scratch("replay-agg")), "replay"))
-        validate_histories(v, [res], prop)
+        if res.get("job_timeout"):
+            from .checks_agg import JOB_TIMEOUTS
+            JOB_TIMEOUTS.append(res)
+            validate_histories(v, [], prop)
+        else:
+            validate_histories(v, [res], prop)
     elif kind == "uncontrolled-stress":
         from .checks_agg import stress_uncontrolled
         root = common.scratch("replay-stress")
